@@ -914,6 +914,30 @@ fn part_d(ctx: &mut Ctx) {
             Err(a) => ctx.rep.expect_fail(&id, "brakedown/default-params-aborted", &format!("BrakedownPCParams::default({}) aborted: {}", n_poly, a), format!("# N={}\n", n_poly)),
         }
     }
+    // the relative distance the codes report (it decides t): Ligero (ρ⁻¹−1)/ρ⁻¹, Brakedown β/r = 61/1521 for the
+    // crate's default parameters — compared as exact fractions, independent of how the code writes them
+    for &(sec, rho) in &[(128usize, 4usize), (128, 2), (80, 2), (100, 8), (64, 3)] {
+        let pp = LigeroPCParams::<Fr, MTConfig, ColH>::new(sec, rho, true, (), (), ());
+        let (d0, d1) = pp.distance();
+        let id = format!("C13/distance/ligero-{}", rho);
+        if (d0 as u128) * (rho as u128) != (d1 as u128) * (rho as u128 - 1) || d1 == 0 {
+            ctx.rep.expect_fail(&id, "ligero/distance", &format!("Ligero with rho_inv={} reports relative distance {}/{}, expected {}/{}", rho, d0, d1, rho - 1, rho),
+                format!("# LigeroPCParams::new({}, {}, ..).distance() = ({}, {})\n# rerun: .build/cargo/debug/pcv-harness C13 --only {}\n", sec, rho, d0, d1, id));
+        }
+        ctx.rep.case(&format!("ligero distance rho_inv={} -> {}/{}", rho, d0, d1), Some(format!("distance/ligero/{}", rho)));
+    }
+    for nv in [2usize, 6, 10, 14] {
+        let id = format!("C13/distance/brakedown/{}", nv);
+        let mut rng = rng_for(ctx.seed, "C13/distance/brakedown", nv as u64);
+        if let Ok(pp) = guarded(|| BdParams::default(&mut rng, 1usize << nv, true, (), (), ())) {
+            let (d0, d1) = pp.distance();
+            if (d0 as u128) * 1521 != (d1 as u128) * 61 || d1 == 0 {
+                ctx.rep.expect_fail(&id, "brakedown/distance", &format!("default Brakedown reports relative distance {}/{} (= {:.6}), expected beta/r = 61/1521 (= {:.6})", d0, d1, d0 as f64 / d1 as f64, 61.0 / 1521.0),
+                    format!("# BrakedownPCParams::default(.., 2^{}, ..).distance() = ({}, {})\n# rerun: .build/cargo/debug/pcv-harness C13 --only {}\n", nv, d0, d1, id));
+            }
+            ctx.rep.case(&format!("brakedown distance nv={} -> {}/{}", nv, d0, d1), Some(format!("distance/brakedown/{}", nv)));
+        }
+    }
     ctx.flush_model("C13-dims");
 }
 
